@@ -472,6 +472,21 @@ def check_joint_array_ctors(run, db):
                     problems.append('`%s` may throw while no builder guards the allocated space' % tstr(thrown)[:80])
             if any(x[0] == 'this.size_' and x[1] not in ('0',) for x in s.writes if x[3] <= (s.throw_at_fwd or 0) and x[4] <= (s.throw_at_call or 0)):
                 problems.append('size_ is already non-zero when `%s` throws: the array destructor would destroy elements the builder also destroys' % tstr(thrown)[:60])
+        # a constructor this one delegates to has completed when the body runs: if the body throws, ~joint_array() runs as well and
+        # destroys [0, size_) - so the delegated-to constructor must leave size_ == 0 (the builder alone rolls back)
+        if n_exc:
+            for e in f.events():
+                if e['ev'] == 'init' and e.get('delegating'):
+                    tgt = db.fns.get((top_term(e) or e.get('e') or {}).get('key'))
+                    if tgt is None:
+                        continue
+                    for ts in fwd.summarize(tgt, db=db, roles={}, inline_pred=lambda a, c, t: False):
+                        if ts.end != 'return':
+                            continue
+                        w = [x for x in ts.writes if x[0] == 'this.size_']
+                        if not w or w[-1][1] != '0':
+                            problems.append('the constructor it delegates to leaves size_ = %s: when an element constructor throws in the body, ~joint_array() also runs '
+                                            'and destroys elements the builder destroys (or that were never constructed)' % (w[-1][1][:40] if w else '<unset>'))
         if problems:
             run.violation('R-GUARD-OWNER', inst, f.loc, '; '.join(sorted(set(problems))[:3]), site=site)
         else:
